@@ -2,7 +2,7 @@
 // Asserted: the output is a permutation of the input (every value occurs as often as before), the requested range is
 // sorted w.r.t. the comparator, elements outside the range are untouched; for the partial sort: the `size` smallest
 // elements are sorted to the front (the documented guarantee) and so are the first r elements, r = return value (the
-// way the pricers use it).  Values come from a small range so that ties occur.
+// way the pricers use it; the return value is not documented).  Values come from a small range so that ties occur.
 #include "vp.h"
 #include "soplex/sorter.h"
 using namespace soplex;
@@ -95,7 +95,7 @@ template<int N> static void sort_part(const int* orig, const Cmp& c0, int size)
    vp_assert(sorted(keys, 0, m, c) && split_ok(keys, 0, m, N, c), 2);          // documented guarantee
    vp_assert(r >= 0 && r <= N, 3);
    vp_assert(sorted(keys, 0, r, c) && split_ok(keys, 0, r, N, c), 4);          // the first r elements are the r smallest, sorted
-   vp_assert(N == 0 || r >= 1, 5);
+   if(r < N) vp_assert(sorted(keys, 0, r + 1, c) && split_ok(keys, 0, r + 1, N, c), 5);   // r as an index (the way the ratio test uses it): 0..r sorted
    for(int i = N; i < NS; ++i) vp_assert(keys[i] == orig[i], 6);
 }
 extern "C" void h_sort_part()
